@@ -1,6 +1,7 @@
 package sim
 
 import (
+	"bytes"
 	"errors"
 	"fmt"
 	"io"
@@ -133,7 +134,11 @@ func (t *SimTransport) RequestPreVote(id raft.ServerID, target raft.ServerAddres
 }
 func (t *SimTransport) InstallSnapshot(id raft.ServerID, target raft.ServerAddress, args *raft.InstallSnapshotRequest, resp *raft.InstallSnapshotResponse, data io.Reader) error {
 	cp := *args
-	return t.net.call(t, string(target), "is", &cp, resp, data)
+	body, err := io.ReadAll(data)
+	if err != nil {
+		return err
+	}
+	return t.net.call(t, string(target), "is", &cp, resp, bytes.NewReader(body))
 }
 func (t *SimTransport) TimeoutNow(id raft.ServerID, target raft.ServerAddress, args *raft.TimeoutNowRequest, resp *raft.TimeoutNowResponse) error {
 	cp := *args
@@ -193,6 +198,9 @@ func (n *Net) canonicalise() {
 		return a.arrive < b.arrive
 	})
 	for _, r := range fresh {
+		if r.Phase == phDone {
+			continue // sent by an incarnation that has crashed meanwhile
+		}
 		n.mu.Lock()
 		n.nextID++
 		r.ID = n.nextID
@@ -236,7 +244,7 @@ func (n *Net) finish(r *Rpc, err error) {
 	n.mu.Lock()
 	r.Phase = phDone
 	n.remove(r)
-	if !r.Dup && r.Kind != "is" && len(n.old) < 64 {
+	if !r.Dup && len(n.old) < 64 {
 		n.old = append(n.old, r)
 	}
 	n.mu.Unlock()
@@ -373,6 +381,12 @@ func (n *Net) Duplicate(idx int) *Rpc {
 	o := n.old[idx%len(n.old)]
 	n.nextID++
 	d := &Rpc{ID: n.nextID, Kind: o.Kind, Src: o.Src, Dst: o.Dst, SrcInc: o.SrcInc, Req: o.Req, Phase: phReq, Dup: true, done: make(chan error, 1)}
+	if br, ok := o.Data.(*bytes.Reader); ok {
+		_, _ = br.Seek(0, io.SeekStart)
+		b, _ := io.ReadAll(br)
+		_, _ = br.Seek(0, io.SeekStart)
+		d.Data = bytes.NewReader(b)
+	}
 	n.pending = append(n.pending, d)
 	n.mu.Unlock()
 	n.c.Tr.Emit("dup", o.Src, M{"id": d.ID, "of": o.ID, "kind": d.Kind, "dst": d.Dst, "req": reqJSON(n.c, d.Kind, d.Req)})
